@@ -140,13 +140,15 @@ def run(ctx):
     ctx.rule('R12.5', 'pose list: LAND(land) first, PARK(park) last, TRACE from steps, interpolated poses flagged LIN_INTERP with one fraction')
     ctx.rule('R12.6', 'stop flag: store(true) only after a successful probe; elsewhere only loaded')
     plan = body(ctx, 'plan')
-    probe = body(ctx, 'probe_strategy')
-    step = body(ctx, 'step_adaptive_linear_transition')
+    probe = util.find_role(ctx, 'strategy probe of Cartesian: returns Result<Vec<AnnotatedJoints>, String>, called from plan',
+                           lambda b, sg: b.path != plan.path and 'AnnotatedJoints' in sg[0] and 'Result' in sg[0], module='cartesian::', called_from=[plan])
+    step = util.find_role(ctx, 'adaptive linear transition of Cartesian: returns Result<Vec<[f64; 6]>, Transition>',
+                          lambda b, sg: 'Transition' in sg[0] and 'Result' in sg[0], module='cartesian::', called_from=[plan])
     plan_cl = util.closure_bodies(prog, plan.path)
 
     # ---------------- R12.1 taint
-    trace_local = [l for l, n in probe.names.items() if n == 'trace']
-    ctx.require(len(trace_local) == 1, 'local `trace` in probe_strategy')
+    trace_local = [l for l in util.locals_of_type(probe, lambda t: t.replace('std::vec::', '') == 'Vec<cartesian::AnnotatedJoints>') if l in probe.names]
+    ctx.require(len(trace_local) == 1, 'the Vec<AnnotatedJoints> being assembled in probe_strategy')
     pushes = [(bi, t) for bi, t in probe.calls() if cname(callee_name(t)) == 'Vec::push' and _root_local(probe, t['args'][0], bi) == trace_local[0]]
     ctx.floor('R12.1 pushes into trace', len(pushes), 2)
     classes = []
@@ -400,8 +402,11 @@ def _collect_self_fields(rv, acc, b):
 
 
 def _poses(ctx, prog):
-    wp = body(ctx, 'with_intermediate_poses')
-    ai = body(ctx, 'add_intermediate_poses')
+    plan = body(ctx, 'plan')
+    wp = util.find_role(ctx, 'pose-list builder of Cartesian: returns Vec<AnnotatedPose>',
+                        lambda b, sg: sg[0].replace('std::vec::', '') == 'Vec<cartesian::AnnotatedPose>', module='cartesian::', called_from=[plan])
+    ai = util.find_role(ctx, 'interpolating helper of Cartesian: takes &mut Vec<AnnotatedPose>',
+                        lambda b, sg: any(x.replace('std::vec::', '') == '&mut Vec<cartesian::AnnotatedPose>' for x in sg[1:]), module='cartesian::', called_from=[plan])
     pushes = [(bi, t) for bi, t in wp.calls() if cname(callee_name(t)) == 'Vec::push']
     items = []
     for bi, t in pushes:
